@@ -33,6 +33,18 @@ def run(chk):
         tracecheck.attribute(chk, results, "C01", exe, "leg", flavour, d)
         nontrivial(chk, allruns)
         shutil.rmtree(d, ignore_errors=True)
+    # "never fails when success is trivial": row-high unrestricted cells with room to spare, all starting on or beyond one edge of the rows
+    results, d, allruns, exe = tracecheck.record_and_validate(
+        chk, "rel", "record", "leg", chk.pick(600, 15000),
+        {"cb": 0, "clump": 1, "singleRowOnly": 1, "polar": 0, "turned": 0, "maxMovable": 30, "utilLo": 0.3, "utilHi": 0.8, "maxFixed": 2, "varyScale": 1},
+        seed_offset=303)
+    tracecheck.attribute(chk, results, "C01", exe, "leg", "rel", d)
+    held = sum(1 for rep, _e, _p in results for f in rep["fails"] if f["sig"] == "c01-trivial-antecedent")
+    chk.cov.setdefault("antecedents_held", {})["c01-trivial-antecedent"] = held
+    if held == 0:
+        raise vlib.FrameworkError("vacuous: success was never trivial in the plan made for that clause")
+    nontrivial(chk, allruns)
+    shutil.rmtree(d, ignore_errors=True)
     chk.cov["rule"] = ("exhaustive small scope (LegalizeCases.tla: 2 row levels x orientation patterns x optional split x optional fixed cell x up to 2 movable "
                        "cells with widths, heights 1-2 rows, polarities, targets) legalized twice by the real code; legalize executions on seeded random circuits of the C01 domain (split rows, gaps, orientation patterns, "
                        "multi-row cells, macros, turned cells, polarities, fixed cells anywhere, utilisation 5%-130%, random accepted "
